@@ -588,8 +588,7 @@ func oracleC09(x *Exec, r *StepRec) {
 			}
 			continue
 		}
-		if pc.ServiceName != qc.ServiceName || !bytes.Equal(pc.Consumer, qc.Consumer) || pc.Input != qc.Input ||
-			pc.SuperMode != qc.SuperMode || pc.Repeated != qc.Repeated || pc.ModuleName != qc.ModuleName {
+		if ctxImmutableChanged(pc, qc) {
 			x.viol("C09", "immutable_changed", fmt.Sprintf("%s changed an immutable field of context %s", describeStep(r), id[:12]), origin)
 			return
 		}
@@ -635,6 +634,11 @@ func oracleC09(x *Exec, r *StepRec) {
 			return
 		}
 	}
+}
+
+func ctxImmutableChanged(pc, qc *types.RequestContext) bool {
+	return pc.ServiceName != qc.ServiceName || !bytes.Equal(pc.Consumer, qc.Consumer) || pc.Input != qc.Input ||
+		pc.SuperMode != qc.SuperMode || pc.Repeated != qc.Repeated || pc.ModuleName != qc.ModuleName
 }
 
 // ---- C10 -------------------------------------------------------------------------------------------
@@ -692,9 +696,17 @@ func oracleC10(x *Exec, r *StepRec) {
 					quiet = false
 				}
 			}
-			if quiet && prev.Freq == qc.RepeatedFrequency && prev.Timeout == qc.Timeout && prev.Freq < 1<<62 {
-				if uint64(h-prev.StartH) != prev.Freq {
-					x.viol("C10", "cadence", fmt.Sprintf("context %s (frequency %d, timeout %d): batch %d started at %d, batch %d at %d", id[:12], prev.Freq, prev.Timeout, prev.N, prev.StartH, qc.BatchCounter, h), attrs)
+			// "unchanged timeout and frequency": by the instructions the harness saw succeed (ledger) where it has
+			// them, by the stored fields otherwise (genesis and re-imported contexts)
+			same := prev.Freq == qc.RepeatedFrequency && prev.Timeout == qc.Timeout
+			freq := prev.Freq
+			if prev.HasTF && ci.HasTF {
+				same = prev.LFreq == ci.LFreq && prev.LTimeout == ci.LTimeout
+				freq = ci.LFreq
+			}
+			if quiet && same && freq < 1<<62 {
+				if uint64(h-prev.StartH) != freq {
+					x.viol("C10", "cadence", fmt.Sprintf("context %s (frequency %d in force, unchanged since the previous batch): batch %d started at %d, batch %d at %d", id[:12], freq, prev.N, prev.StartH, qc.BatchCounter, h), attrs)
 					return
 				}
 				x.stats.inc("probe_cadence_checked")
